@@ -59,6 +59,19 @@ for _f in (c06_alternation, c06_bracket, c06_stop):
     _f.native = lambda cond: cond
 
 
+@specfunc
+def is_prestate(E, x):
+    """x denotes an object of the pre-state (positive reference).  The engine knows this for every list element it
+    reads at a concrete or path index, but drops the typing fact for quantifier-bound indices; the statement-level
+    variants quantify over the frames of outlines, so the fact is restated for those lists (typing, not an assumption
+    about ioflo)"""
+    return Sym(x.t > 0, "bool")
+
+
+is_prestate.native = lambda x: x is not None
+ELEMS = "forall(lambda j: implies(0 <= j and j < len({l}), is_prestate({l}[j])))"
+
+
 def entered_of_other_framers(E):
     """modifies entry of the Frame.enter / Frame.exit views: frames of OTHER framers (auxiliaries) may be entered /
     exited by the operation; frames of the framer that owns `self` keep their flag (self: explicit entry)"""
@@ -200,7 +213,18 @@ REG.assume_note("C06 bracket invariant: outlines are duplicate free (paths of th
                 "for near.framer.active.outline, near.framer.actives and far.outline in Transiter.action[v1] / "
                 "Framer.exitAll[v1]")
 
+CUT_AFTER_EXIT = ("forall(Ref('Frame'), lambda f: implies(f.framer is {f} and f.entered, "
+                  "member(old({f}.active.outline), f)), trigger=lambda f: f.entered)").format(f=FR)
+
+
+def _cut_after_exit(E):
+    """proof cut (an obligation, then a fact): after framer.exit(exits) every entered frame of the framer is a frame of
+    the old active outline (holds with and without suspension)"""
+    E.oblige("lemma", E.spec_eval(CUT_AFTER_EXIT), "after framer.exit(exits): " + CUT_AFTER_EXIT, assume_after=True)
+
+
 contract(FA, "Transiter.action", "C06", params=dict(_t.params), requires=list(_t.requires),
+         ghost={"after": {"framer.exit(exits)": _cut_after_exit}},
          assumes=list(_t.assumes) + [
              FR + ".active is not None",
              # the bracket invariant at entry: entered frames of the framer == members of the FULL active outline
@@ -211,6 +235,7 @@ contract(FA, "Transiter.action", "C06", params=dict(_t.params), requires=list(_t
              # frames of the active outline belong to the framer (as assumed for .actives and far.outline)
              B.OWN_FR.format(l=FR + ".active.outline"),
              PREFIX.format(f=FR),
+             ELEMS.format(l=FR + ".actives"), ELEMS.format(l=FR + ".active.outline"), ELEMS.format(l="far.outline"),
          ],
          modifies=list(_t.modifies), loops={k: dict(inv=list(v["inv"])) for k, v in _t.loops.items()},
          findings={"suspended": SUSPENDED.format(f=FR)},
@@ -232,6 +257,7 @@ contract(FF, "Framer.exitAll", "C06,C03", params=dict(_e.params), requires=list(
              DISTINCT.format(l="self.active.outline"), DISTINCT.format(l="self.actives"),
              B.OWN.format(l="self.active.outline"),
              PREFIX.format(f="self"),
+             ELEMS.format(l="self.actives"), ELEMS.format(l="self.active.outline"),
          ],
          modifies=list(_e.modifies),
          findings={"suspended": SUSPENDED.format(f="self")},
